@@ -4,6 +4,7 @@ request : ov <MaxFileBytes> <req> <hist> <probes> <layers>          (grammar: ha
 reply   : err=1 | err=0 nv=<n> walk=<views> look=<views> spec_walk=<views> spec_look=<views>
           wf=<one 0/1 per view> cls=<failing clauses per view> dec=<0|1> fw=<0|1> sz=<0|1>
           dd=<0|1> alt_wf=<one of - 0 1 per view> alt_walk=<views> alt_look=<views>
+  mt            : per view, the regular files with the modification time of the node's entry (generator: (cid mod 26)*1000 + size)
   walk/look     : the model of image.FromV1Image (literal lock-step loader, final-view pruning)
   spec_walk/... : the OCI visibility rule (for the last view restricted to the needed files)
   wf            : hypothesis H of C04_view_partial per view;  cls: which clauses of H fail
@@ -86,7 +87,7 @@ def bigDup (l : List PEntry) : Bool :=
 def handle (line : String) : String :=
   match line.splitOn " " with
   | ["ov", lim, req, hist, probes, layers] =>
-    match lim.toNat?, (listOf probes ",").mapM unhexS, (layers.splitOn "|").mapM parseLayer with
+    match lim.toNat?, (listOf probes ",").mapM unhexS, (if layers = "~" then some [] else (layers.splitOn "|").mapM parseLayer) with
     | some limit, some probes, some raw =>
       let reqP : Option (Path → Bool) :=
         if req = "A" then some (fun _ => true)
@@ -139,11 +140,17 @@ def handle (line : String) : String :=
           let dd := (List.range n).all fun j => altWf.getD j '-' != '1' || U.all fun q => (chains.getD j emptyTree) q == viewOf effD j q
           let aw := "|".intercalate (altSpecs.map fun o => match o with | some t => walkListing U specContent t | none => "~")
           let al := "|".intercalate (altSpecs.map fun o => match o with | some t => lookListing probeP specContent t | none => "~")
+          let mtListing := fun (t : Tree) =>
+            joinWith "," (sortStrings (U.filterMap fun q => if q = [] then none else
+              match t q with
+              | some nd => if !nd.wh && nd.kind = Kind.file then some (hexS (relStr q) ++ ":" ++ toString ((nd.cid % 26) * 1000 + nd.size)) else none
+              | none => none))
+          let mt := "|".intercalate (views.map mtListing)
           let vw := "|".intercalate (views.map (walkListing U content))
           let vl := "|".intercalate (views.map (lookListing probeP content))
           let sw := "|".intercalate (specs.map (walkListing U specContent))
           let sl := "|".intercalate (specs.map (lookListing probeP specContent))
-          s!"err=0 nv={n} walk={vw} look={vl} spec_walk={sw} spec_look={sl} wf={String.join (wfs.map boolStr)} cls={"|".intercalate cls} dec={boolStr dec} fw={boolStr fw} sz={boolStr sz} dd={boolStr dd} alt_wf={String.ofList altWf} alt_walk={aw} alt_look={al}"
+          s!"err=0 nv={n} walk={vw} look={vl} mt={mt} spec_walk={sw} spec_look={sl} wf={String.join (wfs.map boolStr)} cls={"|".intercalate cls} dec={boolStr dec} fw={boolStr fw} sz={boolStr sz} dd={boolStr dd} alt_wf={String.ofList altWf} alt_walk={aw} alt_look={al}"
     | _, _, _ => "bad-op"
   | _ => "bad-op"
 
